@@ -25,15 +25,20 @@ from props import C20 as D   # shared trace format, generators and reference DOM
 
 PROP = "C05"
 ENGINE = "rcdom"
-LEAN_TARGETS = ["H5V.Props.C05", "H5V.Props.C05TB"]
-AUDIT_IMPORTS = ["H5V.Props.C05TB"]
+LEAN_TARGETS = ["H5V.Props.C05", "H5V.Props.C05TB", "H5V.Props.C05Xml"]
+AUDIT_IMPORTS = ["H5V.Props.C05TB", "H5V.Props.C05Xml"]
 THEOREMS = ["H5V.Props.C05." + t for t in [
     "C05_contract_decidable", "C05_no_panic_partial", "C05_inv_preserved", "C05_run", "C05_monitor_sound",
     "C05_violation_panics", "C05_violation_corrupts", "C05_attrs_no_duplicates", "C05_create_element_attrs",
 ]] + ["H5V.Props.C05TB." + t for t in [
     # the HTML tree-builder model issues only contract-abiding calls, for every token list (Props/C05TB.lean)
     "C05_tb_contract", "C05_tb_contract_fragment", "run_contract", "esc_sink", "C04_tb_total_full",
-    "C04_tb_total_full_fragment"]]
+    "C04_tb_total_full_fragment"]] + ["H5V.Props.C05." + t for t in [
+    # the handle-level model of xml5ever's tree builder (Model/XmlTBH.lean, tied by `xmltb trace`: every sink call of the
+    # real XmlTreeBuilder fed the same tokens) issues only contract-abiding calls and reaches no panic site, for every
+    # token list whose tags the tokenizer can produce (TagOk: no two unprefixed non-declaration attributes of one name)
+    "C05_xml_contract", "C05_xml_new", "C05_xml_process_token", "C05_xml_end", "C05_xml_reach_inv", "C05_xml_reach",
+    "C05_xml_each_call", "C05_xml_monitor_silent", "whichViol_nil_iff", "C05_xml_V_field", "C05_xml_witness_dup_attr"]]
 TRUSTED = [
     "Lean 4 kernel; axioms ⊆ {propext, Classical.choice, Quot.sound} (audited per run)",
     "the contract `H5V.Model.Dom.Contract` is my reading of the trait documentation in "
@@ -230,10 +235,43 @@ def harvest(tier, rng):
     return cases, stats
 
 
+def xml_trace_cases(tier, rng):
+    """token lists fed straight to the real XmlTreeBuilder over the contract monitor and to the handle-level model
+    (`xmltb trace`): C16's token families (namespaces, nesting, stray end tags, doctypes, PIs, script / template names)"""
+    from props import C16
+    out = []
+    for l, t in C16.gen_cases(tier, rng):
+        f = l.split("\t")
+        if f[0] == "xmltb" and f[1] == "tok":
+            out.append(("xmltb\ttrace\t" + f[2], "xml-trace"))
+    return out
+
+
+def is_xml_trace(line):
+    return line.startswith("xmltb\ttrace\t")
+
+
+def xml_tag_ok(line):
+    """the hypothesis of C05_xml_contract: no tag carries two unprefixed attributes (other than namespace declarations)
+    with the same local name - what the tokenizer's finish_attribute guarantees"""
+    for tok in line.split("\t")[2].split(";"):
+        f = tok.split(",")
+        if f[0] not in ("S", "M", "E", "H"):
+            continue
+        seen = set()
+        for i in range(3, len(f) - 2, 3):
+            p_, l_ = f[i], f[i + 1]
+            if p_ == "~" and l_ != "78.6d.6c.6e.73":
+                if l_ in seen:
+                    return False
+                seen.add(l_)
+    return True
+
+
 def gen_cases(tier, rng):
     cases, stats = harvest(tier, rng)
     _STATS["harvest"] = stats
-    return cases
+    return cases + xml_trace_cases(tier, rng)
 
 
 def is_parse(line):
@@ -242,6 +280,8 @@ def is_parse(line):
 
 def compare(line, impl, model):
     """parse lines have no model counterpart (the model side of a parse is the replay of its trace)"""
+    if is_xml_trace(line):
+        return impl == model
     if is_parse(line):
         return True
     return impl == model
@@ -254,6 +294,13 @@ def oracle(line, out):
         return "parser / sink panicked: %s" % out[:300]
     if out in ("bad-op", "bad-case"):
         return "engine rejected the case: %s" % out
+    if is_xml_trace(line):
+        if "@V=" not in out or "@H=" not in out:
+            return "malformed trace output"
+        v = out.split("@V=")[1].split("@H=")[0]
+        if v != "-" and xml_tag_ok(line):
+            return "XmlTreeBuilder violated the TreeSink contract on tokens the tokenizer can produce: " + v[:300]
+        return None
     if is_parse(line):
         if "@V=" not in out:
             return "malformed harvest output"
@@ -282,7 +329,7 @@ def oracle(line, out):
 def nontrivial(line, out):
     if out is None:
         return False
-    if is_parse(line):
+    if is_parse(line) or is_xml_trace(line):
         return out.count(";") >= 7
     return D.nontrivial(line, out)
 
